@@ -275,5 +275,56 @@ func c08Scenarios(tier string) []*Scenario {
 			},
 		})
 	}
+	// Z2: a subscope that is alone (next to the root, which is in every shard) in a later shard of the registry; a
+	// periodic pass may be anywhere in that shard - between the subscope and the root - when more is recorded on the
+	// subscope and Close is called. Both map iteration orders of a two-entry shard are explored (thorough tier).
+	for _, cached := range []bool{true, false} {
+		cached := cached
+		if !cached && tier != "thorough" {
+			continue
+		}
+		sc := &Scenario{Property: "C08", Name: "Z2-close-vs-ticker-subscope-alone-in-a-later-shard-" + b2s(cached), Ticks: 1}
+		sc.Body = func(x *Run) {
+			rec := &Recorder{CloseErr: errSentinel}
+			x.Rec = rec
+			root, closer := tally.VerifNewRootScope(scopeOpts(rec, cached, true), timeDur(1e9), 4)
+			var loner tally.Scope
+			lonerTag := ""
+			used := map[int]bool{}
+			for k := 0; k < 64 && loner == nil; k++ {
+				cand := root.Tagged(map[string]string{"l": fmt.Sprint(k)})
+				sh := tally.VerifShardOf(cand)
+				if sh < 0 {
+					break // the registry has another shape in this tree: the scenario runs with any subscope
+				}
+				if sh > 0 && !used[sh] {
+					loner, lonerTag = cand, fmt.Sprint(k)
+				}
+				used[sh] = true
+			}
+			if loner == nil {
+				loner, lonerTag = root.Tagged(map[string]string{"l": "x"}), "x"
+			}
+			x.Vals["loner"] = lonerTag
+			c, c0 := loner.Counter("c"), root.Counter("c")
+			w := rt.GoNamed("rec", func() {
+				c.Inc(1)
+				c0.Inc(2)
+				c.Inc(4)
+			})
+			w.Join()
+			x.Vals["err"] = closer.Close()
+			rec.Mark("close-returned")
+			x.Vals["err2"] = closer.Close()
+		}
+		sc.Check = func(x *Run, o *rt.Outcome) (string, string, string) {
+			want := map[string]int64{"c{}": 2, "c" + tagString(map[string]string{"l": x.Vals["loner"].(string)}): 5}
+			if cl, d := closeOracle(x, true, false, want, "", 0); cl != "" {
+				return cl, d, "viol"
+			}
+			return "", "", deliveredOutcome(x.Rec.Log)
+		}
+		out = append(out, sc)
+	}
 	return out
 }
